@@ -240,7 +240,7 @@ class C17(Check):
             viol.append({"sig": {"kind": kind, "failure": fk, "innermost": chain[-1] if chain else "module"},
                          "what": f"{desc}: {what}", "detail": detail})
 
-        if "Did not compile" in text and res.exit != 0:
+        if driver.compile_rejected(driver.Res(res.exit, "", text)):
             return {"outcome": "rejected", "nontrivial": False, "tags": ["rejected", f"rej-{fk}"], "show": text[-300:]}
         if res.exit == 0:
             bad("no-failure", f"the program was expected to fail ({fk}) but exited 0: {text[-200:]}")
@@ -248,21 +248,24 @@ class C17(Check):
         if res.cls != "error":
             bad("not-an-mscript-error", f"failure delivered as {res.cls} (exit {res.exit}): {driver.panic_message(res) or text[-200:]}")
             return {"outcome": f"{fk}-{res.cls}", "viol": viol, "nontrivial": True, "tags": [f"f-{fk}"]}
-        banner = "MSCRIPT INTERPRETER FATAL RUNTIME ERROR"
-        if banner not in text:
-            bad("no-banner", f"exit 1 without the fatal run-time error banner: {text[-200:]}")
+        # the report starts at the first line that the binary under test prints for every run-time failure and for no compile
+        # failure (learnt by calibration, so its wording is free)
+        tl = text.split("\n")
+        start = next((i for i, l in enumerate(tl) if driver.runtime_banner(driver.Res(1, "", l))), None)
+        if start is None:
+            bad("no-banner", f"exit 1 without the fatal run-time error report: {text[-200:]}")
             return {"outcome": "no-banner", "viol": viol, "nontrivial": True}
-        before, after = text.split(banner, 1)
+        before, after = "\n".join(tl[:start]), "\n".join(tl[start:])
         before_lines = [l for l in before.split("\n") if l.strip() and not set(l.strip()) <= {"*"}]
         if before_lines != exp:
             bad("stdout", f"output before the banner should be {exp}, got {before_lines}")
         if any(l in after for l in ("after failure", "leave ", "done")):
             bad("ran-on", "statements after the failing one were executed")
-        m = re.search(r"Call stack trace:\n(.*?)\n\s*\nCaused by", after, re.S)
-        if not m:
+        # trace = the frame labels (`<file>.mmm#<function>` / `<native code>#<built-in>`) in order of appearance, whatever decorates them
+        got = [t.rstrip(",;") for t in re.findall(r"(<native code>#\S+|[^\s#<>]+\.mmm#\S+)", after)]
+        if not got:
             bad("no-trace", f"no call stack trace in the report: {after[:300]}")
         else:
-            got = [re.sub(r"^\s*(>>|\^)\s*", "", l).strip() for l in m.group(1).split("\n") if l.strip()]
             # built-in frames: a failure raised by a built-in method lists that built-in as the innermost active function; no
             # other failure may show one there (a `map` / `filter` frame between a callback and its caller is accepted either way)
             natives = [(i, g) for i, g in enumerate(got) if g.startswith("<native code>")]
@@ -293,19 +296,18 @@ class C17(Check):
             if norm != wnorm:
                 bad("trace", f"trace should list {wnorm}, got {norm}")
         frag = FAILS[fk][2]
-        if frag and frag not in after:
-            bad("message", f"report does not carry {frag!r}: {after[-300:]}")
+        msg_tag = "msg-known" if (frag and frag in after) else "msg-other"       # wording is not part of the property: recorded, not judged
         if fk == "assert":
             src_file = "helper.ms" if chain and chain[-1] == "modfn" else "x.ms"
             src = files[src_file].split("\n")
             ln = next(i + 1 for i, l in enumerate(src) if l.strip().startswith("assert "))
             col = src[ln - 1].index("assert") + 1
-            mm = re.search(r"assertion failed in this program \(([^)]*)\)", after)
             want_pos = f"{src_file}:{ln}:{col}"
-            if not mm or mm.group(1) != want_pos:
-                bad("assert-position", f"assert is at {want_pos}; report names {mm.group(1) if mm else None}")
+            named = re.findall(r"[\w./-]+\.ms:\d+:\d+", after)
+            if not any(n == want_pos or n.endswith("/" + want_pos) for n in named):
+                bad("assert-position", f"assert is at {want_pos}; report names {named or None}")
         return {"outcome": f"{fk}-error" + ("-DIFF" if viol else ""), "viol": viol, "nontrivial": len(chain) >= 1,
-                "tags": [f"f-{fk}", f"len{len(chain)}"] + [f"k-{k}" for k in set(chain)]}
+                "tags": [f"f-{fk}", f"len{len(chain)}", msg_tag] + [f"k-{k}" for k in set(chain)]}
 
     def finish(self, stats, tier):
         errs = []
